@@ -82,6 +82,7 @@ API_FUNCS = [
     ('cat_trigger_unsolicited_read', 'cat_trigger_unsolicited_read(&h_obj,h_pick_cmd())', ['C13', 'C16', 'C17', 'C03']),
     ('cat_trigger_unsolicited_test', 'cat_trigger_unsolicited_test(&h_obj,h_pick_cmd())', ['C13', 'C16', 'C17', 'C03']),
     ('cat_is_unsolicited_event_buffered', 'cat_is_unsolicited_event_buffered(&h_obj,h_pick_cmd(),(cat_cmd_type)nondet_int())', ['C13', 'C03']),
+    ('cat_init', 'cat_init(&h_obj,&h_desc,&h_io,NB()?&h_mutex:NULL)', ['C01', 'C11', 'C13', 'C14', 'C15', 'C18', 'C20', 'C03']),
     ('cat_get_processed_command', 'cat_get_processed_command(&h_obj,(cat_fsm_type)nondet_int())', ['C13', 'C03']),
 ]
 
